@@ -2,4 +2,5 @@ open Model
 let () = Driver.main [
   { Driver.name = "dcr"; run = dcr_run; judge = dcr_judge };
   { Driver.name = "dcs"; run = dcs_run; judge = dcs_judge };
+  { Driver.name = "dedup"; run = dedup_run; judge = dedup_judge };
 ]
